@@ -16,7 +16,7 @@ import common
 import numpy as np
 
 
-def make_problem(ndim, md, forced):
+def make_problem(ndim, md, forced, verbose=False):
     from srlife import structural, receiver
     from neml import elasticity, models
 
@@ -35,7 +35,7 @@ def make_problem(ndim, md, forced):
     tube.set_pressure_bc(receiver.PressureBC(times, np.array(times)))
     emodel = elasticity.IsotropicLinearElasticModel(150000.0, "youngs", 0.3, "poissons")
     mat = models.SmallStrainElasticity(emodel)
-    solver = structural.PythonTubeSolver(max_divide=md, force_divide=forced, verbose=False)
+    solver = structural.PythonTubeSolver(max_divide=md, force_divide=forced, verbose=verbose)
     state = solver.init_state(tube, mat)
     return structural, solver, tube, state, tprog
 
@@ -59,8 +59,9 @@ class Recorder:
             raise RuntimeError("verif: scripted non-convergence")
 
 
-def run_real(ndim, md, forced, bits, dtop=0.8, prob=None):
-    structural, solver, tube, state, tprog = prob or make_problem(ndim, md, forced)
+def run_real(ndim, md, forced, bits, dtop=0.8, prob=None, verbose=False):
+    import contextlib, io
+    structural, solver, tube, state, tprog = prob or make_problem(ndim, md, forced, verbose)
     rec = Recorder(bits, ndim)
     names = ["solve_python_1d", "solve_python_2d", "solve_python_3d"]
     saved = {n: getattr(structural, n) for n in names}
@@ -78,7 +79,8 @@ def run_real(ndim, md, forced, bits, dtop=0.8, prob=None):
     try:
         state_n = state.copy()
         try:
-            ret = solver.solve(tube, 1, state_n, dtop)
+            with contextlib.redirect_stdout(io.StringIO()):      # the progress option prints
+                ret = solver.solve(tube, 1, state_n, dtop)
             outcome = "ok"
         except RuntimeError as e:
             ret = None
@@ -148,9 +150,9 @@ def predicate(r, md, forced):
     return bad
 
 
-def enumerate_patterns(ndim, md, forced, limit=None):
+def enumerate_patterns(ndim, md, forced, limit=None, verbose=False):
     """DFS over the decision tree of oracles; only consumed prefixes matter"""
-    prob = make_problem(ndim, md, forced)
+    prob = make_problem(ndim, md, forced, verbose)
     stack = [[]]
     out = []
     while stack:
@@ -185,18 +187,20 @@ def run(ctx):
             if ctx.quick() and md == 4 and ndim != 1:
                 continue
             for forced in (False, True):
-                configs.append((ndim, md, forced))
+                configs.append((ndim, md, forced, False))
+                if ndim == 1 or (md <= 2 and not ctx.quick()):
+                    configs.append((ndim, md, forced, True))      # the documented progress option changes nothing
     allcases, lines = [], []
-    for (ndim, md, forced) in configs:
-        for bits, r in enumerate_patterns(ndim, md, forced):
-            allcases.append((ndim, md, forced, bits, r))
+    for (ndim, md, forced, verbose) in configs:
+        for bits, r in enumerate_patterns(ndim, md, forced, verbose=verbose):
+            allcases.append((ndim, md, forced, bits, r, verbose))
             lines.append("c10 %d %d %s" % (md, 1 if forced else 0, bits_str(bits)))
     answers = drv.ask(lines)
     mism, pred_bad = [], []
-    for (ndim, md, forced, bits, r), ans in zip(allcases, answers):
-        key = (ndim, md, forced, bits_str(bits))
-        ctx.case(key, nontrivial=(False in bits), tag="%dD/md%d/%s/%s" % (ndim, md, "forced" if forced else "adaptive", r["outcome"]),
-                 sample={"dim": ndim, "max_divide": md, "forced": forced, "pattern": bits_str(bits), "real": canon(r), "model": ans})
+    for (ndim, md, forced, bits, r, verbose), ans in zip(allcases, answers):
+        key = (ndim, md, forced, bits_str(bits), verbose)
+        ctx.case(key, nontrivial=(False in bits), tag="%dD/md%d/%s%s/%s" % (ndim, md, "forced" if forced else "adaptive", "/verbose" if verbose else "", r["outcome"]),
+                 sample={"dim": ndim, "max_divide": md, "forced": forced, "verbose": verbose, "pattern": bits_str(bits), "real": canon(r), "model": ans})
         if canon(r).strip() != ans.strip():
             mism.append((key, canon(r), ans))
         pb = predicate(r, md, forced)
@@ -214,7 +218,7 @@ def run(ctx):
         pred_bad.sort(key=lambda x: (x[0][1], len(x[0][3]), x[0][0]))
         key, pb, tr = pred_bad[0]
         ctx.violation("real PythonTubeSolver.solve: " + pb[0],
-                      {"dim": key[0], "max_divide": key[1], "forced": key[2], "pattern": key[3],
+                      {"dim": key[0], "max_divide": key[1], "forced": key[2], "pattern": key[3], "verbose": key[4],
                        "real_trace": tr, "all_failures": pb, "n_failing_patterns": len(pred_bad)},
                       signature="c10:" + pb[0].split(" ")[0])
     elif mism or not thm_ok:
@@ -232,7 +236,7 @@ def replay(obj):
         print("replay names no input:", r)
         return 1
     bits = [] if r["pattern"] == "-" else [c == "1" for c in r["pattern"]]
-    rr = run_real(r["dim"], r["max_divide"], r["forced"], bits)
+    rr = run_real(r["dim"], r["max_divide"], r["forced"], bits, verbose=r.get("verbose", False))
     pb = predicate(rr, r["max_divide"], r["forced"])
     print("real trace:", canon(rr))
     for b in pb:
